@@ -27,6 +27,20 @@ import vf
 
 
 def run_package(c, sc, pkg, structs, order, seed):
+    """a failing stage is confirmed by a second run of the same package (see c07.run_package)"""
+    evs = _run_package_once(c, sc, pkg, structs, order, seed)
+    g = evs[0]
+    if g["deterministic"] and not (g["gombok"] and g["build"] and g["vet"] and g["driver"]):
+        shutil.rmtree(os.path.join(sc.root, pkg), ignore_errors=True)
+        evs2 = _run_package_once(c, sc, pkg, structs, order, seed)
+        g2 = evs2[0]
+        if g2["gombok"] and g2["build"] and g2["vet"] and g2["driver"]:
+            c.extra["unrepeated_stage_failures"] = c.extra.get("unrepeated_stage_failures", []) + [dict(pkg=pkg, msg=g.get("msg", "")[-300:])]
+        return evs2
+    return evs
+
+
+def _run_package_once(c, sc, pkg, structs, order, seed):
     types_go, registry = D.go_source(pkg, structs, order)
     if not os.path.exists(os.path.join(sc.root, "other")):
         os.makedirs(os.path.join(sc.root, "other"))
